@@ -68,6 +68,30 @@ CHECKS = {
             'command set is parsed by an independent reader: group length, ascending tags, even lengths, '
             'command field code, data-set-type flag versus data fragments actually sent.',
             'Trusts vf/refcmd.py (command dictionary from PS3.7 Annex E).', 'refcmd', 'DESIGN.md#C08'),
+    'C09': (True, 'exploration',
+            'exhaustive configuration x request enumeration + Hypothesis on a scripted provider; wire-level oracle via the reference parser',
+            'All 128 entity configurations (served-class subsets x supported-syntax subsets) x all requests of <=1 '
+            '(quick) / <=2 (thorough, 3.3M) contexts over all 40 ordered syntax lists, and generated requests with '
+            'up to 8 contexts, go through the real AssociationAcceptor.handle(); the A-ASSOCIATE-AC bytes are '
+            'checked item by item, the three internal tables must agree with them, and routing is probed with a '
+            'message per accepted context and one on a non-accepted id.',
+            'Provider replaced by a scripted fake (vf/fakedul.py); requests are decoded from reference-encoded '
+            'bytes; any non-zero result counts as rejection.', 'fakedul', 'DESIGN.md#C09'),
+    'C10': (True, 'exploration',
+            'exhaustive boundary grid (12 x 12 announced values x 2 roles x 6 message sizes) + Hypothesis; observation of every P-DATA-TF produced after real negotiation',
+            'For every pair (own maximum, peer-announced maximum) incl. 0 on either side, both roles negotiate '
+            'through the real ACSE code and then send messages below, at and above the implied fragment size; '
+            'every P-DATA-TF must respect the peer limit, nothing may be lost, something must be sent, and the '
+            'announced value must be the own limit or less.', 'Scripted provider; data capped at 300 kB.',
+            'fakedul', 'DESIGN.md#C10'),
+    'C11': (True, 'exploration',
+            'Hypothesis over add_scu/add_scp sequences and reply patterns + exhaustive reply enumeration for small proposals; wire-level oracle',
+            'Generated entity configurations (incl. overlapping class lists and totals around/beyond 128 classes, '
+            'and the own storage_scp of the library) request an association against a scripted peer whose reply '
+            'mixes result codes 0-4 and syntax choices; the A-ASSOCIATE-RQ bytes, accepted-context tables and '
+            'get_scu() for every configured and two foreign classes are checked.',
+            'More than 128 classes: only a clean library error before anything is sent is accepted.',
+            'fakedul', 'DESIGN.md#C11'),
     'C12': (True, 'exploration',
             'structure-aware mutation fuzzing + Hypothesis random streams on the simulated transport (thorough: atheris coverage-guided campaign); crash/hang/well-formed-output/idle/user-told oracle inside the target',
             'From 8 protocol-state prefixes the real provider loop is fed ~900 structure-aware mutations of valid '
@@ -154,6 +178,8 @@ ENGINES = [
      'kind_free_text': 'real DULServiceProvider.run() executed in the calling thread against simulated socket/select/clock/user queue; scripted scenarios'},
     {'name': 'ulmodel', 'path': 'vf/ulmodel.py', 'serves_properties': ['C04', 'C05', 'C12', 'C13'],
      'kind_free_text': 'executable PS3.8 Table 9-10 protocol machine (123 cells, 28 actions) with ARTIM, transport and reassembly tracking'},
+    {'name': 'fakedul', 'path': 'vf/fakedul.py', 'serves_properties': ['C09', 'C10', 'C11', 'C14', 'C16', 'C17', 'C19', 'C20'],
+     'kind_free_text': 'scripted primitive-level provider replacing DULServiceProvider under the real ACSE/service code; wire observed via reference codecs'},
     {'name': 'refcmd', 'path': 'vf/refcmd.py', 'serves_properties': ['C06', 'C07', 'C08', 'C16', 'C17', 'C19'],
      'kind_free_text': 'independent implicit-VR-LE command-set reader/writer and PS3.7 message table; vf/dimsegen.py builds messages and reference fragments'},
     {'name': 'pdugen', 'path': 'vf/pdugen.py', 'serves_properties': ['C01', 'C02', 'C04', 'C05', 'C12'],
